@@ -16,6 +16,8 @@ import Voi.Drv.Panic
 import Voi.Drv.Consts
 import Voi.Drv.Ed25519Model
 import Voi.Drv.ScalarMulModel
+import Voi.Drv.H2CModel
+import Voi.Drv.ECVRFModel
 namespace Voi.Drv
 
 structure DrvState where
@@ -43,6 +45,8 @@ def dispatch (st : DrvState) (ws : List String) : DrvState × String :=
   | "Q1" :: op :: a => let (s, r) := handleQ1 st.sr op a; ({ st with sr := s }, r)
   | "V2" :: op :: a => (st, handleV2 op a)
   | "G2" :: op :: a => (st, handleG2 op a)
+  | "H3" :: op :: a => (st, handleH3 op a)
+  | "E2" :: op :: a => (st, handleE2 op a)
   | "K0" :: op :: a => (st, handleK0 op a)
   | "P1" :: op :: a => (st, handleP1 op a)
   | "F2" :: op :: a => (st, handleF2 op a)
